@@ -26,16 +26,22 @@ structure Defects where
   /-- `mutation_parser.rs:565`, `query_parser.rs:853,1174`, `data_model_parser.rs:628`:
       a string literal only un-escapes `\"` (candidate #27) -/
   literalEscapesRaw : Bool
-  /-- `query.rs:716-729`: a String/Base64/Json default is written between quotes into the filter SQL (candidate #9) -/
+  /-- `query.rs:716-729` before fix d527622: a String/Base64/Json default is written between quotes into the
+      filter SQL (candidate #9). Fixed in /repo: off in `asImplemented`, kept for the regression witnesses. -/
   defaultSpliced : Bool
   /-- `query.rs:87-90, 644`: a `null` parameter is bound to `field = ?n`, which SQL never satisfies -/
   nullParamNoMatch : Bool
-  /-- `query.rs:36-42`: a variable is looked up among ALL recorded parameters by comparing its name with
-      their text, so `$x` takes the slot of an earlier literal `"x"` -/
+  /-- `query.rs:36-42` before fix cedb2ae: a variable is looked up among ALL recorded parameters by comparing
+      its name with their text, so `$x` takes the slot of an earlier literal `"x"`.
+      Fixed in /repo: off in `asImplemented`, kept for the regression witnesses. -/
   varAliasesLiteral : Bool
 deriving Repr, DecidableEq
 
 def Defects.asImplemented : Defects :=
+  { literalEscapesRaw := true, defaultSpliced := false, nullParamNoMatch := true, varAliasesLiteral := false }
+
+/-- the code before the fixes d527622 (defaults bound) and cedb2ae (variable slots) -/
+def Defects.beforeFixes : Defects :=
   { literalEscapesRaw := true, defaultSpliced := true, nullParamNoMatch := true, varAliasesLiteral := true }
 
 def Defects.none : Defects :=
